@@ -4,7 +4,9 @@ package p9
 // counting/path backend vhfs: scripted failures at chosen backend-call indexes
 // (incl. walks failing at component i and Walk results with a wrong QID
 // count), connection cuts after every byte of short sessions and random bytes
-// of long ones, fid replacement, xattr fids, create-rebinding.
+// of long ones, fid replacement, xattr fids, create-rebinding; gated scenarios
+// (rename vs parked Close, rename vs disconnect) and a panic injected into the
+// Renamed notification of a directory rename followed by a disconnect.
 
 import (
 	"testing"
@@ -91,6 +93,15 @@ func TestVerifC05(t *testing.T) {
 				emit(vhgCloseVsRename(wga, dir, same, true))
 			}
 			emit(vhgRenameVsDisconnect(wga, dir))
+		}
+	}
+
+	// 1c. fault: the backend panics inside a Renamed notification below a renamed directory; then everything disconnects
+	for _, wga := range []bool{true, false} {
+		for _, deep := range []bool{false, true} {
+			for _, cross := range []bool{false, true} {
+				emit(vhgRenamedPanic(wga, deep, cross))
+			}
 		}
 	}
 
